@@ -107,10 +107,13 @@ TailBranchDead == (pc = "loop" /\ done = NC) => zeros[NC] # NR
 \* the definitions on every matrix and every returned vector enumerated here
 AsSeq(s) == SetToSeq(s)
 Part2Agrees ==
-  /\ (done = 0 /\ pc = "loop") => RankElim(M) = RankSpan(M)
-  /\ LET F == [j \in 1..NC |-> AsSeq(M[j])]                         \* 0-based rows, as in JSON
-     IN \A j \in 1..NC :
-          LET v == AsSeq({i - 1 : i \in coefs[j]})                  \* 0-based column indices
-              x == XorSel(M, coefs[j])
-          IN Parity(F, NR, v) = [r \in 1..NR |-> IF (r - 1) \in x THEN 1 ELSE 0]
+  /\ (done = 0 /\ pc = "loop") =>
+       /\ RankElim(M) = RankSpan(M)
+       /\ LET F == [j \in 1..NC |-> AsSeq(M[j])]                   \* 0-based rows, as in JSON
+              C == Coords(F, NR)
+          IN /\ C = CoordsDef(F, NR)
+             /\ \A V \in SUBSET (0..(NC - 1)) :
+                  LET x == XorSel(M, {j + 1 : j \in V})
+                  IN /\ SumIsZero(C, V) <=> (x = {})
+                     /\ \A r \in Rows : OddAt(C, r, V) <=> (r \in x)
 =============================================================================
